@@ -77,17 +77,23 @@ type typeCombo struct {
 	name   string
 	cols   []colKind
 	prefix int
+	// capx[c] is the extra capacity (beyond the parent's rows) of column c's slice in the
+	// REAL parent frame: a frame built from columns of unequal capacities has the
+	// smallest one, whichever column it belongs to.
+	capx []int
 }
 
 var combos = []typeCombo{
-	{"int", []colKind{kInt}, 1},
-	{"string", []colKind{kString}, 1},
-	{"bytes", []colKind{kBytes}, 1},
-	{"int+string/1", []colKind{kInt, kString}, 1},
-	{"int+string/2", []colKind{kInt, kString}, 2},
-	{"int+pstruct", []colKind{kInt, kPStruct}, 1},
-	{"cc", []colKind{kCC}, 1},
-	{"wide+int8/2", []colKind{kWide, kInt8}, 2},
+	{"int", []colKind{kInt}, 1, nil},
+	{"string", []colKind{kString}, 1, nil},
+	{"bytes", []colKind{kBytes}, 1, nil},
+	{"int+string/1", []colKind{kInt, kString}, 1, nil},
+	{"int+string/2", []colKind{kInt, kString}, 2, nil},
+	{"int+pstruct", []colKind{kInt, kPStruct}, 1, nil},
+	{"cc", []colKind{kCC}, 1, nil},
+	{"wide+int8/2", []colKind{kWide, kInt8}, 2, nil},
+	{"int+string/1/cap+3,+0", []colKind{kInt, kString}, 1, []int{3, 0}},
+	{"wide+int8/2/cap+0,+2", []colKind{kWide, kInt8}, 2, []int{0, 2}},
 }
 
 var intBox [256]int
@@ -166,6 +172,13 @@ func (s *state) mview() []reflect.Value {
 
 func newState(tc typeCombo, n, off, ln int) *state {
 	realCols := newCols(tc, n, n, 1)
+	for c, x := range tc.capx {
+		if x > 0 { // same rows, larger capacity
+			wider := reflect.MakeSlice(realCols[c].Type(), n, n+x)
+			reflect.Copy(wider, realCols[c])
+			realCols[c] = wider
+		}
+	}
 	modelCols := newCols(tc, n, n, 1)
 	root := frame.Values(realCols).Prefixed(tc.prefix)
 	st := &storage{real: root, model: modelCols, n: n}
@@ -785,6 +798,7 @@ func main() {
 	states := ev.NewCounter()
 	opsSeen := ev.NewCounter()
 	maxDepth := depth
+	width := widthLayer(r, &st, states, opsSeen)
 	ev.Parallel(len(jobs), runtime.NumCPU(), func(i int) {
 		j := jobs[i]
 		d := depth
@@ -814,6 +828,7 @@ func main() {
 		"type_combos":                   len(combos),
 		"start_views":                   len(jobs),
 		"ops_exercised":                 opsSeen.Keys(),
+		"width_layer":                   width,
 		"rule":                          "every operation sequence up to max_depth from every (off,len) view of a parent frame, per column-type combination; state = canonical dump of model storage + view coordinates; each trace is executed on the real frame.Frame (fresh object per trace)",
 	})
 }
@@ -830,13 +845,28 @@ func budget(r *ev.Run) time.Duration {
 func replayDetail(detail json.RawMessage) bool {
 	var d struct {
 		Combo string `json:"combo"`
+		Width string `json:"width_type"`
 		N     int    `json:"n"`
 		Off   int    `json:"off"`
 		Len   int    `json:"len"`
 		Seq   []op   `json:"seq"`
+		WSeq  []wop  `json:"wseq"`
 	}
-	if json.Unmarshal(detail, &d) != nil || d.Combo == "" {
+	if json.Unmarshal(detail, &d) != nil || (d.Combo == "" && d.Width == "") {
 		return false
+	}
+	for _, t := range widthTypes {
+		if t.name != d.Width {
+			continue
+		}
+		for i := 0; i < 2; i++ {
+			res := runWSeq(t, d.N, d.Off, d.Len, d.WSeq)
+			if res == "" {
+				res = "no failure: the view agrees with the model after every step"
+			}
+			fmt.Printf("  re-execution %d: single-column frame of %s, parent of %d rows, view off=%d len=%d, ops %v: %s\n", i+1, d.Width, d.N, d.Off, d.Len, d.WSeq, res)
+		}
+		return true
 	}
 	for _, tc := range combos {
 		if tc.name != d.Combo {
